@@ -263,7 +263,7 @@ func concurrentRuns(r *vkit.R) {
 		}
 
 		// reconfigurer (single goroutine: Sync is documented single-threaded), paced by the shared op counter
-		var nResizeDown, nToggle int
+		var nResizeDown, nToggle, nFlips int
 		applySync := func(nc cfg, label string) {
 			prev := cur
 			epochChanging := !(prev.Kind == kMIF && nc.Kind == kMIF)
@@ -307,11 +307,16 @@ func concurrentRuns(r *vkit.R) {
 			}
 			nc, label := nextCfg(g, cur, smallOnly)
 			if label == "noop" {
-				switch g.Intn(3) {
+				switch g.Intn(4) {
 				case 0:
 					fillerMax++
 				case 1:
 					order++
+				case 2:
+					if hA.flip != nil {
+						hA.flip() // concurrent with the workers' GetOrDefault, as ClusterInfo.Sync does it
+						nFlips++
+					}
 				}
 			}
 			applySync(nc, label)
@@ -525,6 +530,7 @@ func concurrentRuns(r *vkit.R) {
 		r.Count("conc_epochs", len(allEpochs))
 		r.Count("conc_epoch_begins_by_toggle_or_readd", nToggle)
 		r.Count("conc_resize_down", nResizeDown)
+		r.Count("conc_limiter_mode_flips", nFlips)
 		r.Count("conc_panics_in_acquire_or_release(not_judged)", int(panics))
 		r.Count("conc_quiescence_checks", 1)
 		if usedEpoch {
